@@ -221,3 +221,31 @@ def deadline_soak(r, accts, n):
             cops.append(("%d@%d" % (d, 200 + r.below(200)), op))
     parks = "%s:%d" % (r.choice(good).pk.hex()[:16], 60 + r.below(60))
     return parks, cops
+
+
+def dyn_soak(r, accts, n):
+    """accounts created through dirk at run time, then signing requests that address them BY PUBLIC KEY ("d:" addresses)
+    while further accounts are being created: every request must return"""
+    names = ["Wallet 1/Dyn%d" % i for i in range(3)]
+    prefix = ["create %s %s" % (hx("client1"), hx(nm)) for nm in names]
+    hi = {nm: 2 for nm in names}
+    cops = []
+    extra = 0
+    # a dense stream of by-key look-ups that end right after the account fetch (the client has no permission), so that
+    # account registrations land while look-ups are in flight
+    dom = (hist.DOM_RANDAO + bytes(28)).hex()
+    for i in range(12):
+        cops.append((0, "spin 450 sign %s - d:%s %s,%s -" % (hx("client2"), hx(r.choice(names)), dom, "ab" * 32)))
+    for i in range(n):
+        if r.chance(0.25):
+            extra += 1
+            cops.append((r.below(300), "create %s %s" % (hx("client1"), hx("Wallet 1/DynX%d" % extra))))
+        else:
+            nm = r.choice(names)
+            hi[nm] += 1
+            adr = "d:" + hx(nm)
+            if r.chance(0.5):
+                cops.append((r.below(20), att_op(adr, 1, hi[nm], r.below(4))))
+            else:
+                cops.append((r.below(20), atts_op([att_item(adr, 1, hi[nm], r.below(4))])))
+    return prefix, cops
